@@ -385,6 +385,12 @@ def report(prop, ev, results, prefixes):
         print("# ... %d more violating behaviours of %s" % (nviol - 5, prop))
     for p, n in sorted(other.items()):
         print("# note: %d behaviours violate %s (reported by that property's own check)" % (n, p))
+    dk = {}
+    for res in results:
+        for d in (res.get("merged") or {}).get("drift", []):
+            dk[d[1]] = dk.get(d[1], 0) + 1
+    for k, n in sorted(dk.items()):
+        print("DRIFT property=%s %s at %d events  # implementation-level prediction differs, property predicates hold" % (prop, k, n))
     ev.violations = nviol
     ev.cov["known_findings"] = nknown
     return EXIT_VIOLATION if nviol else EXIT_OK
